@@ -260,6 +260,12 @@ func (n *cnNet) buildTx(spec *cnTxSpec, rng *rand.Rand) ([]byte, error) {
 		if spec.Gov == "runtime" {
 			rt.GovernanceModel = registry.GovernanceRuntime
 		}
+		if spec.Entity != "" {
+			// ownership transfer: the current owner signs a descriptor that names another entity
+			if a, ok := n.account(spec.Entity); ok { // an entity of the genesis or a user account that runs an entity
+				rt.EntityID = a.signer.Public()
+			}
+		}
 		if spec.Deps != "" {
 			rt.Deployments = nil
 			for _, dv := range strings.Split(spec.Deps, ";") {
